@@ -470,6 +470,41 @@ func (g *gen) all(emit func(stream, line string)) {
 	for i := 0; i < 2500*scale; i++ {
 		emit("random", g.randomCode())
 	}
+	// 6b. every memorySize function of the live table, called directly (hook VerifC11MemSize):
+	// offsets/lengths from the small, huge and uint64-edge lattices, exact stack depth
+	memOps := []struct {
+		op    byte
+		depth int
+	}{{SHA3, 2}, {CALLDATACOPY, 3}, {CODECOPY, 3}, {0x3c, 4}, {RETURNDATACOPY, 3}, {MLOAD, 1}, {MSTORE, 2}, {MSTORE8, 2},
+		{MCOPY, 3}, {0xa0, 2}, {0xa2, 4}, {0xf0, 3}, {0xf1, 7}, {0xf2, 7}, {RETURN, 2}, {0xf4, 6}, {0xf5, 4}, {0xf7, 9}, {0xfa, 6}, {REVERT, 2}, {ADD, 2}}
+	for i := 0; i < 60*scale; i++ {
+		for _, mo := range memOps {
+			var sb strings.Builder
+			sb.WriteString(fmt.Sprintf("memsize %d %d", g.r.Intn(8), mo.op))
+			for k := 0; k < mo.depth; k++ {
+				var v *big.Int
+				switch g.r.Intn(6) {
+				case 0:
+					v = g.huge[g.r.Intn(len(g.huge))]
+				case 1:
+					v = big.NewInt(0)
+				case 2:
+					v = g.operand()
+				default:
+					v = g.small[g.r.Intn(len(g.small))]
+				}
+				sb.WriteString(" " + hx.Hex(v.Bytes()))
+			}
+			emit("memsize", sb.String())
+		}
+	}
+	// 6c. STATICCALL to the identity precompile: memory and return data after the call
+	win := []int{0, 0, 1, 15, 16, 17, 31, 32, 33, 48, 64, 65, 96, 100, 128, 200}
+	for i := 0; i < 600*scale; i++ {
+		mem := g.r.Bytes(g.r.Pick(0, 1, 31, 32, 33, 64, 96, 100, 160, 200))
+		emit("idcall", fmt.Sprintf("idcall %s %d %d %d %d", hx.Hex(mem), win[g.r.Intn(len(win))], win[g.r.Intn(len(win))],
+			win[g.r.Intn(len(win))], win[g.r.Intn(len(win))]))
+	}
 	// 7. the analysis alone
 	for i := 0; i < 400*scale; i++ {
 		code := g.jumpyBytes()
